@@ -210,10 +210,70 @@ def worker(args):
             "outcome": hashlib.sha1(b"".join(hashes)).hexdigest()[:10]}
 
 
+def chain_sequences(tier):
+    """insertion sequences over both sites of a 2-site chain: every word of length 3 (thorough: and 4) over
+    {site 0, site 1} x {kick, reset, proj}, all controls at one (step, side) slot -- so the controls of one site are
+    in general NOT adjacent in insertion order -- plus words whose controls sit at two different slots."""
+    alpha = [(site, m) for site in (0, 1) for m in ("kick", "reset", "proj")]
+    out = []
+    slots = [(0, "pre"), (1, "pre"), (3, "pre"), (0, "post"), (2, "post")]
+    for (st, sd) in slots:
+        lens = (3, 4) if (tier == "thorough" or (st, sd) in ((1, "pre"), (2, "post"))) else (3,)
+        for L in lens:
+            for w in itertools.product(alpha, repeat=L):
+                if len(set(x[0] for x in w)) < 2:
+                    continue        # one site only: covered by the single-site schedules
+                out.append(tuple((site, st, sd, m) for (site, m) in w))
+    for w in itertools.product(alpha, repeat=3):
+        if len(set(x[0] for x in w)) < 2:
+            continue
+        for sl in itertools.product([(1, "pre"), (1, "post"), (2, "pre")], repeat=3):
+            if len(set(sl)) == 1:
+                continue
+            out.append(tuple((site, st, sd, m) for (site, m), (st, sd) in zip(w, sl)))
+    return out
+
+
+def chain_multi_worker(args):
+    idx, seq = args
+    E = env()
+    cc = oq.ChainControl([D, D])
+    for (site, st, sd, mp) in seq:
+        cc.add_single_site_control(MAPS[mp].copy(), site=site, step=int(st), post=(sd == "post"))
+    chain = oq.SystemChain(hilbert_space_dimensions=[D, D])
+    chain.add_site_hamiltonian(site=0, hamiltonian=H0)
+    chain.add_site_hamiltonian(site=1, hamiltonian=H1)
+    tebd = oq.PtTebd(oq.AugmentedMPS([M.RHO_GEN2, M.RHO_GEN2]), chain, [E["pt"], None],
+                     oq.PtTebdParameters(dt=DT, order=2, epsrel=1e-12), chain_control=cc, dynamics_sites=[0, 1])
+    r = tebd.compute(N, progress_type="silent")
+    refs = []
+    for site in (0, 1):
+        sub = tuple((st, sd, "int", mp) for (s_, st, sd, mp) in seq if s_ == site)
+        refs.append(np.array(reference(sub, site == 0, E["p"] if site == 0 else E["p1"])))
+    out = []
+    adjacent = all(len(list(g)) >= 1 for _, g in itertools.groupby(seq, key=lambda c: c[0])) and \
+        len([k for k, _ in itertools.groupby(seq, key=lambda c: c[0])]) == 2
+    fam = "contiguous-per-site" if adjacent else "interleaved-sites"
+    for site in (0, 1):
+        scale = np.trace(refs[1 - site], axis1=1, axis2=2)[:, None, None]
+        got = np.array(r["dynamics"][site].states)
+        dev = np.abs(got - scale * refs[site]).max()
+        if dev > 1e-9:
+            nsite = sum(1 for c in seq if c[0] == site)
+            out.append((f"chain|two-sites|{fam}|{nsite}-controls-on-site|state-mismatch",
+                        f"insertion sequence (site, step, side, map) {seq}: site {site} |rho-ref|={dev:.2e}"))
+    return {"idx": idx, "vio": out, "nruns": 1, "outcome": np.round(np.array(r["dynamics"][0].states), 9).tobytes()[:64]}
+
+
 def run(tier, seed):
     rep = Report(LEVEL)
     scheds = schedules(tier)
     res = pmap(worker, list(enumerate(scheds)), seed=seed)
+    cseqs = chain_sequences(tier)
+    cres = pmap(chain_multi_worker, list(enumerate(cseqs)), seed=seed)
+    for sq, r in zip(cseqs, cres):
+        for cls, what in r["vio"]:
+            rep.add(Violation(cls, what, {"chain_sequence": [list(c) for c in sq]}))
     nruns = 0
     outcomes = set()
     classes = {}
@@ -224,9 +284,10 @@ def run(tier, seed):
         for cls, what in r["vio"]:
             rep.add(Violation(cls, what, {"schedule": [list(c) for c in s]}))
     rep.coverage = {
-        "states": len(scheds),
-        "transitions": nruns,
-        "traces_validated_against_impl": nruns,
+        "states": len(scheds) + len(cseqs),
+        "transitions": nruns + len(cseqs),
+        "traces_validated_against_impl": nruns + len(cseqs),
+        "two_site_insertion_sequences": len(cseqs),
         "distinct_outcomes": len(outcomes),
         "schedule_classes": classes,
         "exhaustive": True,
@@ -234,7 +295,9 @@ def run(tier, seed):
                 "families: all single controls, all ordered pairs on one (step, side) over 3 non-commuting maps and all "
                 "spec pairs, all ordered pairs of distinct (step, side) slots, all orders of 3 stacked controls; each "
                 "schedule is executed with/without an exact ancilla PT, start_time 0 and 1.7, and (int schedules) on either "
-                "site of a 2-site chain via PtTebd; transitions = real executions",
+                "site of a 2-site chain via PtTebd; plus every insertion word of length 3 (4 at two slots; thorough: all) over "
+                "{site 0, site 1} x 3 maps at one slot and length-3 words spread over mixed slots, on a 2-site chain with "
+                "controls on both sites; transitions = real executions",
         "samples": [[list(c) for c in scheds[(seed * 37) % len(scheds)]], [list(c) for c in scheds[500]]],
     }
     rep.assumptions = ["dense reference mc/refmodel.simulate with insertion-order composition",
@@ -243,6 +306,9 @@ def run(tier, seed):
 
 
 def replay(rp):
+    if "chain_sequence" in rp:
+        r = chain_multi_worker((0, tuple(tuple(c) for c in rp["chain_sequence"])))
+        return {"obs": r["vio"], "violation": r["vio"][0][0] if r["vio"] else None}
     sched = tuple(tuple(c) for c in rp["schedule"])
     r = worker((0, sched))
     return {"obs": r["vio"], "violation": r["vio"][0][0] if r["vio"] else None}
